@@ -83,14 +83,14 @@ PROPS = {
         domains=[("smserver", "hist", 1500, 20000), ("smserver", "cer", 500, 5000), ("smserver", "multi", 400, 4000), ("smclient", "dialall", 1, 1), ("smclient", "dial", 200, 3000), ("smserver", "many", 1, 1), ("smclient", "redial", 1, 1)],
         relevant=["C10:"],
         theorems=["DV.Props.C10."+t for t in ["C10_gate","C10_after","C10_meta_after_write","C10_history","C10_builtin","C10_names_refused","C10_client_first_cea_decides","C10_client_gate_needs_success","C10_gate_gen","C10_gen"]],
-        gen_obligations=["Gen.smNewRegs","Gen.cmdCapabilitiesExchange","Gen.cmdDeviceWatchdog","Gen.handshakeGateType","Gen.handshakeGateBody","Gen.channelSends"],
+        gen_obligations=["Gen.smNewRegs","Gen.cmdCapabilitiesExchange","Gen.cmdDeviceWatchdog","Gen.handshakeGateType","Gen.handshakeGateBody","Gen.channelSends","Gen.handshakeRegistrations"],
         trusted=["Model.SM hand-written from diam/sm/sm.go, cer.go, dwr.go, smparser/*.go, smpeer/metadata.go; dispatch through the C09 mux model"],
     ),
     "C11": dict(
         domains=[("smserver", "cer", 2500, 40000), ("smserver", "hist", 800, 10000), ("smserver", "multi", 400, 5000), ("smserver", "many", 1, 1), ("smserver", "tlscer", 12, 60)],
         relevant=["C11:"],
         theorems=["DV.Props.C11."+t for t in ["C11_accept_iff","C11_accept_meta","C11_reject_code","C11_cea_fields","C11_cea_identity","C11_cea_local_address","C11_gen"]],
-        gen_obligations=["Gen.rcSuccess","Gen.rcNoCommonApplication","Gen.rcNoCommonSecurity","Gen.rcUnableToComply","Gen.relayAppId","Gen.cmdCapabilitiesExchange"],
+        gen_obligations=["Gen.rcSuccess","Gen.rcNoCommonApplication","Gen.rcNoCommonSecurity","Gen.rcUnableToComply","Gen.relayAppId","Gen.cmdCapabilitiesExchange","Gen.handleCERCalls"],
         trusted=["Model.SM hand-written from diam/sm/cer.go and smparser (CER.Parse, Application.Parse, chooseErr, handleGroup, validate); getLocalAddresses as a table over the harness' endpoint menu"],
     ),
     "C16": dict(
@@ -157,7 +157,7 @@ PROPS = {
         domains=[("smclient", "wd", 400, 6000), ("smserver", "hist", 800, 10000)],
         relevant=["C13:"],
         theorems=["DV.Props.C13."+t for t in ["C13_bound","C13_ack_not_lost","C13_responsive","C13_silent","C13_failure_dwa_ignored","C13_drained","C13_lost_ack_counterexample","C13_dwa","C13_answers_by_connection","C13_latest_handshake_counterexample","C13_gen"]],
-        gen_obligations=["Gen.handshakeAnswerHandlers","Gen.capDwac","Gen.dwrDrainsFirst","Gen.dwaSendNonBlocking","Gen.dwrMakeDWR","Gen.dwrWrites","Gen.dwrCloses","Gen.dwrLoopCond","Gen.clientTimers"],
+        gen_obligations=["Gen.handshakeAnswerHandlers","Gen.capDwac","Gen.dwrDrainsFirst","Gen.dwaSendNonBlocking","Gen.dwrMakeDWR","Gen.dwrWrites","Gen.dwrCloses","Gen.dwrLoopCond","Gen.clientTimers","Gen.handleDWRCalls","Gen.handleDWACalls"],
         trusted=CLIENT_TRUST,
     ),
     "C18": dict(
